@@ -1,4 +1,5 @@
 CONSTANTS
+  MapDevs = {}
   Dev = {"D_scan_name_empty_label", "D_scan_int_overflow", "D_scan_string_quote", "D_charstr_entry_no_token"}
   MaxEntries = 1
 SPECIFICATION Spec
